@@ -5,11 +5,11 @@
    non-Exception signal (StopRequested); the faithful models exhibit the hangs below (witness
    schedules, replayed on the implementation by ./check C05). What is proved for all schedules is the
    safety half: a closed iterator has no live helper thread, and failures are delivered in stream
-   order (C01_fifo_prefix / C01_no_exception_output). The deadlock-freedom theorems for the remaining
-   configurations (fifo_stream with Exception failures; buffer(n >= 3)) are not proved yet
-   (C05_fifo_no_deadlock_todo, C05_buffer3_no_deadlock_todo): that half rests on the scheduler
+   order (C01_fifo_prefix / C01_no_exception_output); and fifo_stream / Parmapper never wedge when the
+   source raises only ordinary exceptions (C05_fifo_no_deadlock). The deadlock-freedom theorem for
+   buffer(n >= 3) is not proved yet (C05_buffer3_no_deadlock_todo): that part rests on the scheduler
    exploration, which classifies every explored run. *)
-From MpV Require Import Lib.Conc Proof.CleanupProof.
+From MpV Require Import Lib.Conc Proof.CleanupProof Proof.FifoLive.
 From MpV Require Model.Buffer Model.FifoStream.
 From Coq Require Import List ZArith.
 Import ListNotations.
@@ -28,6 +28,17 @@ Theorem C05_fifo_closed_no_live_feeder :
   FifoStream.f_finished (run FifoStream.step g (FifoStream.init g) sched) = true.
 Proof. exact F.closed_means_feeder_gone. Qed.
 Print Assumptions C05_fifo_closed_no_live_feeder.
+
+(* fifo_stream / Parmapper never wedge: for every capacity >= 1, pool size >= 1, source that raises only ordinary
+   exceptions (at any position), worker outcomes, preprocessor, flags, position at which the consumer stops early,
+   and every interleaving of the feeder thread, the consuming thread and the pool workers: a state in which none of
+   them can move is a final state (iterator closed, feeder finished). With a fair scheduler: nothing blocks forever. *)
+Theorem C05_fifo_no_deadlock :
+  forall (g : FifoStream.cfg) (sched : list FifoStream.label),
+  no_base (FifoStream.src g) -> 1 <= FifoStream.cap g -> 1 <= FifoStream.conc g ->
+  FifoStream.deadlocked g (run FifoStream.step g (FifoStream.init g) sched) = false.
+Proof. exact fifo_no_deadlock. Qed.
+Print Assumptions C05_fifo_no_deadlock.
 
 (* Refutation of "no hang" for buffer(1) with an early break: _finalize drains and then joins, while
    the worker still has to put the element it holds and the end marker into a queue of size 1. *)
